@@ -1,4 +1,5 @@
-(** node/find.go Selection.Find (without a query part) + node/path_slice.go parseUrlPath + meta/find.go
+(** node/find.go Selection.Find (on the root without a query part: [find_path]; on any selection, with the
+    "../" loop and the cut of the "?query" part: [find_rel] at the end of this file) + node/path_slice.go parseUrlPath + meta/find.go
     meta.Find for idents without '/', as executable model with the two type assertions on
     user-supplied segments explicit:
       site 1  p.Meta.(meta.HasDefinitions)   - a step below a leaf, leaf-list or choice
@@ -227,3 +228,107 @@ Definition find_path (old : bool) (w : world) (path : list byte) : mres :=
   if starts_dotdot path then MErr                        (* no parent path to resolve *)
   else if existsb (Byte.eqb x3f) path then MUnmodelled
   else walk old (w_module w) true (NSk (w_root w)) (split_on x2f path).
+
+(** ---- Find on a selection below the root: leading "../" steps and the "?query" part ----------------
+
+    node/find.go Selection.Find: every leading "../" moves to [s.parent] (none left: "no parent path",
+    an error) and drops three bytes of the path; what remains is cut at ITS first '?' - the query is
+    decoded (net/url, parseQueryParams, BuildConstraints: outside the model, it can only turn the
+    result into an error) - and the part in front of the '?' is parsed by parseUrlPath against the meta
+    of the selection the "../" steps led to.
+
+    The selections above the start selection are what findSlice / selekt / selectListItem build
+    (node/selection.go): one per container or leaf step, and two per list step that carries a key -
+    the list selection and, below it, the entry selection; both have the list as their meta. *)
+Fixpoint anc_chain (cur : sk) (names : list ident) (row : bool) (acc : list sk) : option (list sk) :=
+  match names with
+  | [] => Some acc
+  | n :: tl =>
+      match sks_find n (sk_kids cur) with
+      | None => None
+      | Some k =>
+          match k with
+          | SkLeaf _ _ _ _ => match tl with [] => Some (k :: acc) | _ => None end
+          | SkCont _ _ _ _ => anc_chain k tl row (k :: acc)
+          | SkList _ _ _ _ _ =>
+              match tl with
+              | [] => Some (if row then k :: k :: acc else k :: acc)
+              | _ => anc_chain k tl row (k :: k :: acc)      (* below a list only through an entry *)
+              end
+          end
+      end
+  end.
+
+(** the loop  for strings.HasPrefix(p, "../") { if s.parent == nil { error }; p = p[3:]; s = s.Parent() } ;
+    [chain] is the start selection and the selections above it, innermost first *)
+Fixpoint go_up (chain : list sk) (p : list byte) : option (list sk * list byte) :=
+  match chain with
+  | [] => None
+  | _ :: rest =>
+      if starts_dotdot p then
+        match rest with
+        | [] => None                                      (* no parent path to resolve *)
+        | _ => go_up rest (skipn 3 p)
+        end
+      else Some (chain, p)
+  end.
+
+(** what the query part can do to the verdict of the path part: reject the request, nothing else
+    (under [old] a query error may come before the crash of the path part: not modelled) *)
+Definition with_query (m : mres) : mres :=
+  match m with
+  | MPanic _ => MUnmodelled
+  | MOk => MOkOrErr
+  | _ => m
+  end.
+
+Definition find_rel (old : bool) (w : world) (names : list ident) (row : bool) (path : list byte) : mres :=
+  match anc_chain (w_root w) names row [w_root w] with
+  | None => MUnmodelled
+  | Some chain =>
+      match go_up chain path with
+      | None => MErr
+      | Some ([], _) => MUnmodelled
+      | Some (s :: rest, p) =>
+          let is_root := match rest with [] => true | _ => false end in
+          match cut_first x3f p with
+          | None => walk old (w_module w) is_root (NSk s) (split_on x2f p)
+          | Some (pp, _) => with_query (walk old (w_module w) is_root (NSk s) (split_on x2f pp))
+          end
+      end
+  end.
+
+(** ---- queries that name no parameter BuildConstraints knows ---------------------------------------
+    Such a query builds no field / range / content / where constraint (the depth and node-count limits
+    it installs do not apply to navigation requests), so Find returns what it returns without it. *)
+Definition known_params : list (list byte) :=
+  [ [x64;x65;x70;x74;x68];                                                       (* depth *)
+    [x66;x63;x2e;x72;x61;x6e;x67;x65];                                           (* fc.range *)
+    [x66;x69;x65;x6c;x64;x73];                                                   (* fields *)
+    [x66;x63;x2e;x78;x66;x69;x65;x6c;x64;x73];                                   (* fc.xfields *)
+    [x66;x63;x2e;x6d;x61;x78;x2d;x6e;x6f;x64;x65;x2d;x63;x6f;x75;x6e;x74];       (* fc.max-node-count *)
+    [x63;x6f;x6e;x74;x65;x6e;x74];                                               (* content *)
+    [x77;x69;x74;x68;x2d;x64;x65;x66;x61;x75;x6c;x74;x73];                       (* with-defaults *)
+    [x66;x69;x6c;x74;x65;x72];                                                   (* filter *)
+    [x77;x68;x65;x72;x65] ].                                                     (* where *)
+
+(** letters, digits and  = & . - _  : nothing net/url or QueryUnescape could reject or rewrite *)
+Definition plain_byte (c : byte) : bool :=
+  let n := bN c in
+  ((48 <=? n)%N && (n <=? 57)%N) || ((97 <=? n)%N && (n <=? 122)%N) || ((65 <=? n)%N && (n <=? 90)%N)
+  || Byte.eqb c x3d || Byte.eqb c x26 || Byte.eqb c x2e || Byte.eqb c x2d || Byte.eqb c x5f.
+
+Definition pair_key (pair : list byte) : list byte :=
+  match cut_first x3d pair with Some (k, _) => k | None => pair end.
+
+Definition neutral_query (q : list byte) : bool :=
+  forallb plain_byte q
+  && forallb (fun pr => negb (existsb (bytes_eqb (pair_key pr)) known_params)) (split_on x26 q).
+
+(** [same]: 2 when the harness observed Find(path) and Find(path without its query) to end alike (same
+    outcome class, same selection path), 1 when not, 0 when it did not look *)
+Definition query_law (path : list byte) (same : nat) : bool :=
+  match cut_first x3f path with
+  | Some (_, q) => if neutral_query q then Nat.eqb same 2 else true
+  | None => true
+  end.
